@@ -33,6 +33,7 @@ def dispatch (l : Line) : List Verdict :=
   | "alog" => handleALog l
   | "route" => handleRoute l
   | "guard" => handleGuard l
+  | "owncache" => handleOwnCache l
   | "errpage" => handleErrPage l
   | "proxyown" => handleProxyOwn l
   | "cors" => handleCors l
